@@ -1,4 +1,5 @@
 import MgProof.C12.LemmasApi
+import MgProof.C12.LemmasExtra
 /-!
 # C12 — property theorems (AES / DES / Triple-DES in ECB, CBC, CFB, OFB, CTR)
 
@@ -312,6 +313,97 @@ theorem cbc_chunking {cx : Cx} {E D : Bytes → Bytes} (h : Std cx E D) (hm : cx
       (cbcEncBlocks cx.blkF (cbcEncBlocks cx.blkF iv (chunks cx.bs a)).2 (chunks cx.bs b)).2, rfl, ?_, ?_⟩
     · rw [cbc_ok cx _ b hm hb this, hd]
     · simp only []; rw [cbcEncBlocks_append]
+
+/-- the `iv` a CBC encryption call leaves behind is the last ciphertext block (the caller's
+`iv` if there was no block) -/
+theorem cbcEnc_final_iv (F : Bytes → Bytes) : ∀ (blocks : List Bytes) (iv : Bytes),
+    (cbcEncBlocks F iv blocks).2 = (Spec.cbcEnc F iv blocks).getLastD iv
+  | [], _ => rfl
+  | p :: ps, iv => by
+    simp only [cbcEncBlocks, Spec.cbcEnc, xorBytes_comm iv p]
+    rw [cbcEnc_final_iv F ps]
+    cases h : Spec.cbcEnc F (F (xorBytes p iv)) ps <;> simp [List.getLastD]
+
+/-- the `iv` a CBC decryption call leaves behind is the last input (ciphertext) block -/
+theorem cbcDec_final_iv (F : Bytes → Bytes) : ∀ (blocks : List Bytes) (iv : Bytes),
+    (cbcDecBlocks F iv blocks).2 = blocks.getLastD iv
+  | [], _ => rfl
+  | c :: cs, iv => by
+    simp only [cbcDecBlocks]
+    rw [cbcDec_final_iv F cs]
+    cases cs <;> simp [List.getLastD]
+
+/-- **CBC: the updated `iv`** after a successful call, both directions. -/
+theorem cbc_final_iv {cx : Cx} {E D : Bytes → Bytes} (h : Std cx E D) (iv input : Bytes)
+    (hm : cx.mode = 1) (hl : input.length % cx.bs = 0) (hiv : iv.length = cx.bs) :
+    (cbc cx iv input).map Prod.snd = .ok (match cx.dir with
+      | .enc => (Spec.cbcEnc E iv (chunks cx.bs input)).getLastD iv
+      | .dec => (chunks cx.bs input).getLastD iv) := by
+  rw [cbc_ok cx iv input hm hl hiv, h.blk (by omega)]
+  cases cx.dir <;> simp [Except.map, cbcEnc_final_iv, cbcDec_final_iv]
+
+/-- **CBC: any sequence of whole-block chunks = one call**, carrying the `iv`. -/
+theorem cbc_chunking_list {cx : Cx} {E D : Bytes → Bytes} (h : Std cx E D) (hm : cx.mode = 1)
+    (parts : List Bytes) (hp : ∀ p ∈ parts, p.length % cx.bs = 0) : ∀ iv : Bytes, iv.length = cx.bs →
+    feed (fun iv p => cbc cx iv p) iv parts = cbc cx iv parts.flatten := by
+  induction parts with
+  | nil =>
+    intro iv hiv
+    rw [List.flatten_nil, cbc_ok cx iv [] hm (by simp) hiv]
+    cases cx.dir <;> rfl
+  | cons p ps ih =>
+    intro iv hiv
+    have hp0 := hp p (by simp)
+    have hrest : ps.flatten.length % cx.bs = 0 := by
+      have : ∀ (l : List Bytes), (∀ q ∈ l, q.length % cx.bs = 0) → l.flatten.length % cx.bs = 0 := by
+        intro l
+        induction l with
+        | nil => intro _; simp
+        | cons q l ihl =>
+          intro hq
+          rw [List.flatten_cons, List.length_append, Nat.add_mod, hq q (by simp),
+            ihl (fun r hr => hq r (by simp [hr]))]
+          simp
+      exact this ps (fun q hq => hp q (by simp [hq]))
+    obtain ⟨oa, iva, ob, ivb, h1, h2, h3⟩ := cbc_chunking h hm iv p ps.flatten hiv hp0 hrest
+    have hiva : iva.length = cx.bs := by
+      have hc := cbc_ok cx iv p hm hp0 hiv
+      rw [h1] at hc
+      injection hc with hc
+      have hF : ∀ x, x.length = cx.bs → (cx.blkF x).length = cx.bs := by
+        rw [h.blk (by omega)]; cases cx.dir
+        · exact h.lenD
+        · exact h.lenE
+      have hblocks := chunks_all_len cx.bs h.bs_pos p hp0
+      have e : iva = (match cx.dir with
+          | .enc => cbcEncBlocks cx.blkF iv (chunks cx.bs p)
+          | .dec => cbcDecBlocks cx.blkF iv (chunks cx.bs p)).2 := (congrArg Prod.snd hc)
+      rw [e]
+      cases cx.dir
+      · simp only []
+        rw [cbcDec_final_iv]
+        cases hq : (chunks cx.bs p).getLast? with
+        | none =>
+          have : chunks cx.bs p = [] := List.getLast?_eq_none_iff.mp hq
+          simp [this, List.getLastD, hiv]
+        | some b =>
+          have hb := hblocks b (List.mem_of_getLast? hq)
+          rw [List.getLastD_eq_getLast?, hq]; exact hb
+      · simp only []
+        have : ∀ (bl : List Bytes) (iv : Bytes), iv.length = cx.bs → (∀ x ∈ bl, x.length = cx.bs) →
+            (cbcEncBlocks cx.blkF iv bl).2.length = cx.bs := by
+          intro bl
+          induction bl with
+          | nil => intro iv h _; exact h
+          | cons x xs ih' =>
+            intro iv hi hx
+            exact ih' _ (hF _ (by simp [xorBytes_length, hi, hx x (by simp)]))
+              (fun y hy => hx y (by simp [hy]))
+        exact this _ iv hiv hblocks
+    simp only [feed, List.flatten_cons]
+    rw [h1]
+    simp only []
+    rw [ih (fun q hq => hp q (by simp [hq])) iva hiva, h2, h3]
 
 /-! ## Part A.4 — invalid parameters are rejected -/
 
